@@ -756,6 +756,10 @@ class FuelHandler:
 
         These blocks in effect are not moved at all.
         """
+        if assembly1 is assembly2:
+            # nothing to exchange (taking the same block out twice would lose it)
+            return
+
         # grab stationary block flags
         sBFList = self.r.core.stationaryBlockFlagsList
 
